@@ -112,6 +112,9 @@ Obj(m) == [t |-> "obj", m |-> m]
 \* values: the non-finite floats (an error without the format nonfinite)
 ExtraV(t, f) ==
     CASE t.k = "float" /\ f # "" -> {NaNV, InfV(FALSE), InfV(TRUE)}
+      \* 1h2m3.5s, 59m59.999999999s, -1h
+      [] t.k = "dur" /\ f = "iso8601" -> {I(FALSE, <<3, 7, 2, 3, 5, 0, 0, 0, 0, 0, 0, 0, 0>>), I(FALSE, <<3, 5, 9, 9, 9, 9, 9, 9, 9, 9, 9, 9, 9>>),
+                                         I(TRUE, <<3, 6, 0, 0, 0, 0, 0, 0, 0, 0, 0, 0, 0>>)}
       [] t.k = "ptr" -> {[nil |-> FALSE, e |-> x] : x \in ExtraV(t.e, f)}
       [] OTHER -> {}
 
@@ -126,9 +129,13 @@ BinInputs(f) ==
       [] f = "array" -> {Arr(<<N(<<48>>)>>), Arr(<<N(<<50, 53, 53>>), N(<<49>>)>>), Arr(<<N(<<50, 53, 54>>)>>), Arr(<<N(<<45, 49>>)>>), Arr(<<S(<<49>>)>>),
                          Arr(<<N(<<49>>), N(<<50>>), N(<<51>>)>>), Arr(<<N(<<49, 46, 48>>)>>), Arr(<<JNull>>)}
       [] OTHER -> {}
+\* ISO 8601 durations: every designator, both cases, both separators, leading zeros, a sign; wrong
+\* order, repeated and missing parts, date parts, fractions elsewhere than last; the int64 bounds
+IsoInputs == {S(<<80, 84, 48, 83>>), S(<<80, 84, 49, 72, 50, 77, 51, 46, 53, 83>>), S(<<45, 80, 84, 49, 46, 48, 48, 48, 48, 48, 48, 48, 48, 49, 83>>), S(<<112, 116, 49, 104>>), S(<<80, 84, 49, 44, 53, 83>>), S(<<43, 80, 84, 48, 49, 77>>), S(<<80, 84, 49, 77, 49, 72>>), S(<<80, 49, 68, 84, 49, 72>>), S(<<80, 84>>), S(<<80>>), S(<<80, 84, 49, 72, 49, 72>>), S(<<80, 84, 49, 46, 53, 72>>), S(<<80, 84, 48, 46, 53, 77>>), S(<<80, 84, 49, 46, 53, 77, 50, 83>>), S(<<80, 84, 50, 53, 54, 50, 48, 52, 55, 72, 52, 55, 77, 49, 54, 46, 56, 53, 52, 55, 55, 53, 56, 48, 55, 83>>), S(<<80, 84, 50, 53, 54, 50, 48, 52, 55, 72, 52, 55, 77, 49, 54, 46, 56, 53, 52, 55, 55, 53, 56, 48, 56, 83>>), S(<<45, 80, 84, 50, 53, 54, 50, 48, 52, 55, 72, 52, 55, 77, 49, 54, 46, 56, 53, 52, 55, 55, 53, 56, 48, 56, 83>>), S(<<45, 80, 84, 50, 53, 54, 50, 48, 52, 55, 72, 52, 55, 77, 49, 54, 46, 56, 53, 52, 55, 55, 53, 56, 48, 57, 83>>), S(<<80, 84, 57, 57, 57, 57, 57, 57, 57, 57, 57, 57, 57, 57, 57, 57, 57, 57, 57, 57, 57, 57, 72>>), S(<<80, 84, 49, 83, 32>>), S(<<80, 84, 49, 46, 83>>), S(<<80, 84, 46, 53, 83>>), S(<<80, 84, 49, 46, 49, 50, 51, 52, 53, 54, 55, 56, 57, 57, 83>>), S(<<49, 72>>), S(<<>>), S(<<80, 84, 49, 115>>), S(<<80, 84, 53, 120>>), S(<<45, 80, 84, 48, 83>>), S(<<80, 84, 49, 72, 48, 77, 48, 46, 48, 83>>), S(<<80, 84, 49, 53, 51, 55, 50, 50, 56, 54, 55, 77>>), S(<<80, 84, 57, 50, 50, 51, 51, 55, 50, 48, 51, 54, 46, 56, 53, 52, 55, 55, 53, 56, 48, 55, 83>>), S(<<80, 49, 89>>), S(<<80, 84, 49, 72, 44, 53, 77>>), S(<<80, 84, 49, 46, 53, 46, 53, 83>>), S(<<84, 49, 72>>), S(<<80, 84, 72>>), N(<<49>>), B(TRUE)}
 RECURSIVE ExtraI(_, _)
 ExtraI(t, f) ==
     CASE t.k \in {"bytes", "barr"} -> BinInputs(f)
+      [] t.k = "dur" /\ f = "iso8601" -> IsoInputs
       [] t.k = "float" /\ f # "" -> {S(NaNName), S(InfName), S(<<45>> \o InfName), S(<<43>> \o InfName), S(<<110, 97, 110>>), S(<<73, 110, 102>>)}
       [] t.k = "ptr" -> ExtraI(t.e, f)
       [] OTHER -> {}
